@@ -1,6 +1,6 @@
 """C17 — glob and nmap range notations denote exactly their address sets.
 
-Ops: valid_glob S ; glob_conv S ; range2globs A A ; cidr2glob N ; nmap fuel S ; nmap_plan fuel S ;
+Ops: valid_glob S ; glob_conv S ; range2globs A A ; cidr2glob N ; nmap fuel S ; nmap_plan fuel S ; nmap_take fuel S ;
      nmap_multi fuel [S,...] ; nmap_islice fuel [S,...]   (+ platform op pyint)
 The nmap ops run the model with the real foreign parsers (Nmap.realForeign = the C03 / C01 models of
 IPNetwork(spec) / IPAddress(spec)); nothing of the real code's results is passed to the driver.
@@ -33,7 +33,8 @@ RULE = ('glob strings: valid globs of every shape L*H?S* with boundary octets, e
         'overflowing ranges, sloppy numerals, wrong octet counts, a.b.c.d/p with every p in 0..33 and sloppy prefixes, IPv6 '
         'addresses, edit-distance-1 neighbours; enumerations truncated at %d; iter_nmap_range(*specs) with 0-4 arguments of every form '
         '(octet lists, CIDRs, IPv6, malformed) under per-spec and whole-call (islice) budgets placed at, just before and just after every '
-        'spec boundary. non-trivial = distinct case whose implementation '
+        'spec boundary; every third single spec (and every corpus spec) also through islice with the exact budget 0 (three in six), 1, 2 or 3 '
+        '(nmap_take): at 0 nothing of the generator runs, malformed specs included. non-trivial = distinct case whose implementation '
         'output is not an error') % (ALPHA, FUEL)
 
 
@@ -367,11 +368,15 @@ def nmap_spec(rng):
     return ''.join(rng.choice(ALPHA + ':') for _ in range(rng.randrange(0, 10)))
 
 
-def nmap_cases(s, plan=False):
+def nmap_cases(s, plan=False, takes=()):
     tag = 'nmap/cidr' if '/' in s else ('nmap/v6' if ':' in s else 'nmap/octets')
     out = [Case('nmap %d %s' % (FUEL, hexs(s)), tag, ('nmap', s))]
     if plan:
         out.append(Case('nmap_plan %d %s' % (FUEL, hexs(s)), 'nmap/plan', ('nplan', s)))
+    for f in takes:
+        # list(islice(iter_nmap_range(s), f)) with the EXACT f, 0 included: a generator body does not run before
+        # the first next(), so at f = 0 nothing is parsed and nothing raised (audit 2b finding 2)
+        out.append(Case('nmap_take %d %s' % (f, hexs(s)), 'nmap/take%s' % ('0' if f == 0 else ''), ('ntake', f, s)))
     return out
 
 
@@ -424,7 +429,7 @@ def corpus():
               '10/8', '10.0.0.1/ 8', '010.0.0.1/8', '1.2.3.4 /8', '1.2.3.4/+8', '1.2.3.4/0_8', '1.2.3.4/255.255.255.0',
               '1.2.3.4/8/9', '1.2.3.4//8', '/', '/8', 'x/y', '::/8', '::1/x', 'fe80::/10', '::ffff:1.2.3.4/24', '1.2.3.4/-0',
               '1.2.3.4 :', '1.2.3.4 ::1', '1 :', '0x7f.1 :x', '::ffff:1.2.3.4', '1.2.3.4:', ': 1.2.3.4']:
-        out += nmap_cases(s, plan=True)
+        out += nmap_cases(s, plan=True, takes=(0, 1))
     for ss in [('10.0.0.0/30', '::1', '1.2.3.4-5'), ('1.2.3.4', '1.2.3', '9.9.9.9'), ('1.2.3.4', 'x/y'), ('::1', '10.0.0.0/33', '1.1.1.1'),
                (), ('',), ('1.2.3.4', '1.2.3.4'), ('1.2.3.4,4', '1.2.3.4 :')]:
         out += multi_cases(ss, [FUEL, 0, 1, 2, 4, 5, 6])
@@ -491,7 +496,8 @@ def generate(rng, tier):
         if s in nseen or not s.isascii():
             return
         nseen.add(s)
-        cases.extend(nmap_cases(s, plan=len(nseen) % 4 == 0))
+        cases.extend(nmap_cases(s, plan=len(nseen) % 4 == 0,
+                                takes=(rng.choice((0, 0, 0, 1, 2, 3)),) if len(nseen) % 3 == 0 else ()))
 
     nbase = [nmap_spec(rng) for _ in range(2500 * mult)]
     for s in nbase:
@@ -618,6 +624,8 @@ def impl(c):
         return _tryc(lambda: tf(valid_nmap_range(a[1]))) + ' ' + _tryc(it)
     if k == 'nplan':
         return _tryc(lambda: plist(_show(x) for x in itertools.islice(iter_nmap_range(a[1]), FUEL)))
+    if k == 'ntake':
+        return _tryc(lambda: plist(_show(x) for x in itertools.islice(iter_nmap_range(a[2]), a[1])))
     if k in ('nmulti', 'nislice'):
         specs = a[1] if k == 'nmulti' else a[2]
         budget = FUEL * max(1, len(specs)) if k == 'nmulti' else a[1]
@@ -714,6 +722,16 @@ def oracle(c, got):
         return _nmap_oracle(a[1], got)
     if k == 'nplan':
         return None                      # judged through the 'nmap' case of the same spec
+    if k == 'ntake':
+        f, spec = a[1], a[2]
+        if f == 0:
+            return None if got == '[]' else 'islice(iter_nmap_range(spec), 0) gave %s: nothing of a generator runs before the first next()' % got[:100]
+        e = _nmap_expect(spec, f)
+        if e is None:
+            return None                  # acceptance left open; the 'nmap' case of the spec ties it to valid_nmap_range
+        if e[0] == 'bad':
+            return None if got in ('!value', '!addrFormat') else 'malformed spec iterated: %s' % got[:100]
+        return None if got == plist(e[1][:f]) else 'first %d items %s, expected %s' % (f, got[:100], plist(e[1][:f])[:100])
     if k in ('nmulti', 'nislice'):
         specs = a[1] if k == 'nmulti' else a[2]
         budget = None if k == 'nmulti' else a[1]
@@ -827,6 +845,8 @@ def repro(c):
         return 'list(iter_nmap_range(*%r))' % (a[1],)
     if k == 'nislice':
         return 'list(itertools.islice(iter_nmap_range(*%r), %d))' % (a[2], a[1])
+    if k == 'ntake':
+        return 'list(itertools.islice(iter_nmap_range(%r), %d))' % (a[2], a[1])
     if k == 'nplan':
         return 'list(itertools.islice(iter_nmap_range(%r), %d))' % (a[1], FUEL)
     if k == 'vglob_nonstr':
